@@ -10,6 +10,7 @@ import (
 	"math/rand/v2"
 	"net"
 	"runtime/debug"
+	"strings"
 	"sync"
 	"time"
 
@@ -73,12 +74,13 @@ type event struct {
 
 // testServer is one real Server plus a log of its callbacks.
 type testServer struct {
-	cfg         Cfg
-	s           *gortsplib.Server
-	stream      *gortsplib.ServerStream
-	addr        string
-	idleTimeout time.Duration
-	readTimeout time.Duration
+	cfg          Cfg
+	s            *gortsplib.Server
+	stream       *gortsplib.ServerStream
+	addr         string
+	idleTimeout  time.Duration
+	readTimeout  time.Duration
+	writeTimeout time.Duration
 
 	mu           sync.Mutex
 	cond         *sync.Cond
@@ -202,8 +204,23 @@ func (m mDescribe) OnDescribe(ctx *gortsplib.ServerHandlerOnDescribeCtx) (*base.
 	if ctx.Path == streamPath {
 		return &base.Response{StatusCode: base.StatusOK}, m.c.ts.stream, nil
 	}
+	if ctx.Path == bigPath {
+		// a description of ~100 KB (scenarios only: a peer that pipelines requests and never reads)
+		return &base.Response{StatusCode: base.StatusOK, Body: bigBody}, nil, nil
+	}
 	return &base.Response{StatusCode: base.StatusNotFound}, nil, nil
 }
+
+const bigPath = "/big"
+
+var bigBody = func() []byte {
+	var b strings.Builder
+	b.WriteString("v=0\r\no=- 0 0 IN IP4 127.0.0.1\r\ns=big\r\nt=0 0\r\n")
+	for i := 0; b.Len() < 100*1024; i++ {
+		fmt.Fprintf(&b, "m=video 0 RTP/AVP 96\r\na=rtpmap:96 H264/90000\r\na=fmtp:96 packetization-mode=1; sprop-parameter-sets=Z0LAHtkDxWhAAAADAEAAAAwDxYuS,aMuMsg==\r\na=control:trackID=%d\r\n", i)
+	}
+	return []byte(b.String())
+}()
 
 type mAnnounce struct{ c *core }
 
@@ -315,9 +332,16 @@ func streamDesc() *description.Session {
 	}}
 }
 
+// writeTimeoutOverride: scenarios use a short WriteTimeout (a peer that never reads must be closed quickly)
+var writeTimeoutDefault = 2 * time.Second
+
 func startServer(cfg Cfg, idle, read time.Duration, seed uint64) (*testServer, error) {
+	return startServerW(cfg, idle, read, writeTimeoutDefault, seed)
+}
+
+func startServerW(cfg Cfg, idle, read, write time.Duration, seed uint64) (*testServer, error) {
 	ts := &testServer{
-		cfg: cfg, idleTimeout: idle, readTimeout: read,
+		cfg: cfg, idleTimeout: idle, readTimeout: read, writeTimeout: write,
 		connID: map[*gortsplib.ServerConn]int{}, sessID: map[*gortsplib.ServerSession]int{},
 		sessBySecret: map[string]int{},
 	}
@@ -328,7 +352,7 @@ func startServer(cfg Cfg, idle, read time.Duration, seed uint64) (*testServer, e
 			Handler:      ts.handler(),
 			RTSPAddress:  "127.0.0.1:0",
 			ReadTimeout:  read,
-			WriteTimeout: 2 * time.Second,
+			WriteTimeout: write,
 			IdleTimeout:  idle,
 		}
 		if cfg.UDP {
